@@ -19,9 +19,10 @@ FAMS = [("covering", "h_covering", ["hwloc_get_obj_covering_cpuset", "hwloc_get_
         ("singlify_per_core", "h_singlify_per_core", ["hwloc_bitmap_singlify_per_core", "hwloc_get_next_obj_covering_cpuset_by_type"]),
         ("distrib", "h_distrib", ["hwloc_distrib"]),
         ("seed_ok", "h_seed_ok", ["hwloc_discover", "hwloc__insert_object_by_cpuset", "hwloc__reconnect", "hwloc_connect_levels", "propagate_nodeset", "fixup_sets"])]
-for seed, tiers in ((1, ("quick", "thorough")), (2, ("quick", "thorough")), (3, ("thorough",)), (8, ("quick", "thorough"))):
+for seed, tiers in ((1, ("quick", "thorough")), (2, ("quick", "thorough")), (3, ("thorough",)), (8, ("quick", "thorough")), (12, ("quick", "thorough"))):
     for n, e, enc in FAMS:
-        if seed == 8 and n not in ("same_locality", "nodeset_conv", "seed_ok", "covering"): continue      # S8 = S1 + a second NUMA node on Package0: the helpers that look at nodesets
+        if seed == 8 and n not in ("same_locality", "nodeset_conv", "seed_ok", "covering"): continue
+        if seed == 12 and n not in ("covering", "largest", "iterators", "seed_ok"): continue      # S12: interleaved numbering + a disallowed first PU: children are ordered by complete_cpuset, not by cpuset      # S8 = S1 + a second NUMA node on Package0: the helpers that look at nodesets
         h = dict(COMMON); h.update(name="%s_s%d" % (n, seed), entry=e, defines={"SEED": seed}, encoded=enc,
                                    bounds="seed topology S%d (shape concrete, built by the real core); query arguments symbolic" % seed,
                                    tiers={t: {} for t in tiers})
@@ -37,4 +38,4 @@ for seed, tiers in ((1, ("quick", "thorough")), (2, ("quick", "thorough")), (3, 
         if n == "closest": h.update(bounds="seed topology S%d; every source object (enumerated), max 0..5 symbolic" % seed)
         if n == "iterators": h.update(bounds="seed topology S%d; every depth -2..7 (enumerated); set and index symbolic" % seed)
         HARNESSES.append(h)
-OUTSIDE = ["topologies other than the seeds S1-S3, S8", "multi-word cpusets", "I/O-object branches of hwloc_get_obj_with_same_locality", "subtype/nameprefix filters"]
+OUTSIDE = ["topologies other than the seeds S1-S3, S8, S12", "multi-word cpusets", "I/O-object branches of hwloc_get_obj_with_same_locality", "subtype/nameprefix filters"]
